@@ -521,6 +521,23 @@ def aliasing_history():
     return h
 
 
+def bystander_upload_history():
+    """an upload for a key that already holds an object - created, fed, aborted (by its owner, by another, twice), completed - leaves that object,
+    its metadata and its checksums as they are until a completion replaces it"""
+    U = lambda al, cred="alice", md=None, key="b/c": dict(op="mpu_create", bucket="abc", key=key, alias=al, cred=cred, metadata=md)
+    A = lambda al, cred="alice", key="b/c": dict(op="mpu_abort", bucket="abc", key=key, alias=al, cred=cred)
+    R = lambda key="b/c": [dict(op="get", bucket="abc", key=key), dict(op="head", bucket="abc", key=key)]
+    h = [dict(op="create_bucket", bucket="abc"), dict(op="put", bucket="abc", key="b/c", body=b"stored object", metadata={"color": "blue"}),
+         dict(op="put", bucket="abc", key="a", body=b"no metadata here", metadata=None),
+         U(0), *R(), A(0), *R(),                                                     # created and aborted at once
+         U(1, md={"up": "load"}), dict(op="mpu_part", bucket="abc", key="b/c", alias=1, cred="alice", part=1, body=b"part"), A(1, cred="bob"), *R(), A(1), *R(), A(1), *R(),
+         U(2, key="a"), A(2, key="a"), *R("a"),
+         U(3, md={"new": "meta"}), dict(op="mpu_part", bucket="abc", key="b/c", alias=3, cred="alice", part=1, body=b"x" * (MIN_PART + 1)),
+         dict(op="copy", bucket="abc", key="b/d", src_bucket="abc", src_key="b/c"), *R("b/d"),
+         dict(op="mpu_complete", bucket="abc", key="b/c", alias=3, cred="alice", parts=[1]), *R(), dict(op="list", bucket="abc")]
+    return h
+
+
 def completion_grid_history():
     """which part lists complete an upload, and what the object is then"""
     P = lambda al, n, body: dict(op="mpu_part", bucket="abc", key="b/c", alias=al, cred="alice", part=n, body=body)
@@ -630,7 +647,7 @@ def run(ctx):
         ctx.violation(dict(stage="proof", kind="theorem or build broken", issues=r["issues"]), has_input=False)
     rng = ctx.rng
     plan = [(30, 40, False), (6, 25, True)] if ctx.quick else [(400, 60, False), (60, 40, True)]
-    hists = [gen_history(rng, n, big) for cnt, n, big in plan for _ in range(cnt)] + [part_copy_history(), metadata_grid_history(), aliasing_history(), completion_grid_history()]
+    hists = [gen_history(rng, n, big) for cnt, n, big in plan for _ in range(cnt)] + [part_copy_history(), metadata_grid_history(), aliasing_history(), completion_grid_history(), bystander_upload_history()]
     ctx.probes = 0
     universe = "[" + ";".join(cb(k) for k in KEYS) + "]"
     nconf = 6 if ctx.quick else 60
@@ -716,3 +733,39 @@ def run(ctx):
         ctx.count("correspondence.differing_histories", ndiff)
     ctx.count("histories", len(hists))
     ctx.sample(dict(ops=[show_op(o) for o in hists[0][3:7]], impl=res[0]["outs"][3:7]))
+    long_key_probe(ctx)
+
+
+def long_key_probe(ctx):
+    """keys near the length limit (outside the universe of the refinement theorem, judged by the specification oracle alone): stored, read back,
+    replaced, listed and deleted like any other key"""
+    known = vlib.known_findings("C18")
+    hists = []
+    for n in (120, 170, 255, 700, 1024):
+        key = ("d/" if n > 255 else "") + "k" * (n - (2 if n > 255 else 0)) if n <= 255 else "/".join(["s" * 200] * (n // 201)) + "/" + "t" * (n - (n // 201) * 201)
+        key = key[:n]
+        hists.append([dict(op="create_bucket", bucket="bkt-a"), dict(op="put", bucket="bkt-a", key=key, body=b"first", metadata={"a": "1"}),
+                      dict(op="get", bucket="bkt-a", key=key), dict(op="put", bucket="bkt-a", key=key, body=b"second!", metadata=None),
+                      dict(op="get", bucket="bkt-a", key=key), dict(op="head", bucket="bkt-a", key=key), dict(op="delete", bucket="bkt-a", key=key),
+                      dict(op="get", bucket="bkt-a", key=key)])
+    seen = False
+    for ops, r in zip(hists, vlib.run_impl("fs", [to_case(ops) for ops in hists])):
+        ctx.cov["evaluations"] += len(ops)
+        n = len(ops[1]["key"])
+        if "panic" in r or any(a == "panic" for a in r.get("outs", [])):
+            ctx.violation(dict(stage="long-key", kind="backend panicked", key_length=n)); continue
+        outs = r["outs"]
+        bad = spec_oracle(ops, outs)
+        refused = [i for i in (1, 3) if not outs[i].startswith("ok")]
+        ctx.count("long_key.%d.%s" % (n, "ok" if bad is None and not refused else "differs"))
+        if bad is None and not refused:
+            ctx.cov["traces_validated_against_impl"] += len(ops)
+            ctx.nontrivial(("long-key", n, tuple(a[:12] for a in outs)))
+            continue
+        why = bad[1] if bad is not None else "PutObject with a legal key of %d bytes is answered %s" % (n, outs[refused[0]])
+        if "long-key-side-files" in known and all(outs[i] == "err:InternalError" for i in refused) and refused:
+            if not seen:
+                ctx.known("long-key-side-files", known["long-key-side-files"]); seen = True
+            continue
+        ctx.violation(dict(stage="long-key", kind="the backend's answer breaks the store specification: " + why, key_length=n,
+                           history=[show_op(o) for o in ops], answers=[a[:80] for a in outs]))
